@@ -35,14 +35,53 @@ def world_class(spec):
     return getattr(importlib.import_module(mod), cls)
 
 
+def _run_isolated(wc, prop, tier, rs, known, run_cap):
+    """Execute one run in a forked child of the (pre-loaded) worker: every run starts from the same process state, so a
+    defect that lives in module-level state of the code under test cannot leak from one run into the next, a replay of the
+    run alone reproduces it, and a hung / killed run only costs that run (reported as a harness error, never as exit 0)."""
+    rfd, wfd = os.pipe()
+    pid = os.fork()
+    if pid == 0:
+        code = 0
+        try:
+            os.close(rfd)
+            r = core.execute_run(wc, prop, tier, rs, known=known, run_cap_s=run_cap, keep_events=False)
+            data = json.dumps(r).encode()
+            with os.fdopen(wfd, "wb") as f:
+                f.write(data)
+        except BaseException:
+            code = 3
+        finally:
+            os._exit(code)
+    os.close(wfd)
+    chunks = []
+    with os.fdopen(rfd, "rb") as f:
+        while True:
+            b = f.read(1 << 20)
+            if not b:
+                break
+            chunks.append(b)
+    _, status = os.waitpid(pid, 0)
+    if status != 0 or not chunks:
+        return {"run_seed": rs, "verdict": "harness_error", "error": f"run process ended abnormally (wait status {status}): watchdog timeout or crash",
+                "violation": None, "known": {}, "foreign": {}, "steps": 0, "trace": None, "n_ops": 0, "digest": "", "n_events": 0, "op_outcomes": {},
+                "faults_fired": {}, "probes": {}, "oracle_checks": {}, "signatures": [], "triples": [], "rng_calls": {}, "scripted_consumed": 0,
+                "vector_biased": 0, "entropy_served": 0, "objects_touched": 0}
+    return json.loads(b"".join(chunks).decode())
+
+
 def _worker(args):
     prop, tier, verif_seed, indices, world_spec, no_known, run_cap = args
     wc = world_class(world_spec)
     known = findings.Known(disabled=no_known)
+    isolate = os.environ.get("VERIF_NO_ISOLATION") != "1"
     out = []
     for i in indices:
         rs = core.run_seed_for(verif_seed, prop, tier, i)
-        r = core.execute_run(wc, prop, tier, rs, known=known, run_cap_s=run_cap, keep_events=False)
+        if isolate:
+            r = _run_isolated(wc, prop, tier, rs, known, run_cap)
+        else:
+            r = core.execute_run(wc, prop, tier, rs, known=known, run_cap_s=run_cap, keep_events=False)
         r["index"] = i
         out.append(r)
     return out
